@@ -88,6 +88,7 @@ seq_t dtw_warping_paths{{ suffix }}{{ suffix2 }}(seq_t *wps,
     {%- endif %}
 
     idx_t ri, ci, min_ci, max_ci, wpsi, wpsi_start;
+    idx_t final_wpsi = 0;
 
     // Top row: ri = -1
     for (wpsi=0; wpsi<settings->psi_2b+1; wpsi++) {
@@ -180,7 +181,11 @@ seq_t dtw_warping_paths{{ suffix }}{{ suffix2 }}(seq_t *wps,
             wpsi++;
         }
         {%- if "affinity" not in suffix %}
+        // Last column of this row (also when the row is cut short by pruning)
+        final_wpsi = ri_width + wpsi + (max_ci - ci) - 1;
         ec = ec_next;
+        {%- else %}
+        final_wpsi = ri_width + wpsi - 1;
         {%- endif %}
         for (idx_t i=ri_width + wpsi; i<ri_width + p.width; i++) {
             wps[i] = {{infinity}};
@@ -250,7 +255,11 @@ seq_t dtw_warping_paths{{ suffix }}{{ suffix2 }}(seq_t *wps,
             wpsi++;
         }
         {%- if "affinity" not in suffix %}
+        // Last column of this row (also when the row is cut short by pruning)
+        final_wpsi = ri_width + wpsi + (max_ci - ci) - 1;
         ec = ec_next;
+        {%- else %}
+        final_wpsi = ri_width + wpsi - 1;
         {%- endif %}
         for (idx_t i=ri_width + wpsi; i<ri_width + p.width; i++) {
             wps[i] = {{infinity}};
@@ -320,7 +329,11 @@ seq_t dtw_warping_paths{{ suffix }}{{ suffix2 }}(seq_t *wps,
             wpsi++;
         }
         {%- if "affinity" not in suffix %}
+        // Last column of this row (also when the row is cut short by pruning)
+        final_wpsi = ri_width + wpsi + (max_ci - ci) - 1;
         ec = ec_next;
+        {%- else %}
+        final_wpsi = ri_width + wpsi - 1;
         {%- endif %}
         for (idx_t i=ri_width + wpsi; i<ri_width + p.width; i++) {
             wps[i] = {{infinity}};
@@ -400,7 +413,11 @@ seq_t dtw_warping_paths{{ suffix }}{{ suffix2 }}(seq_t *wps,
             wpsi++;
         }
         {%- if "affinity" not in suffix %}
+        // Last column of this row (also when the row is cut short by pruning)
+        final_wpsi = ri_width + wpsi + (l2 - ci) - 1;
         ec = ec_next;
+        {%- else %}
+        final_wpsi = ri_width + wpsi - 1;
         {%- endif %}
         for (idx_t i=ri_width + wpsi; i<ri_width + p.width; i++) {
             wps[i] = {{infinity}};
@@ -420,7 +437,6 @@ seq_t dtw_warping_paths{{ suffix }}{{ suffix2 }}(seq_t *wps,
 //    dtw_print_wps(wps, l1, l2, settings);
 
     seq_t rvalue = 0;
-    idx_t final_wpsi = ri_widthp + wpsi - 1;
     // Deal with Psi-relaxation
     if (return_dtw && settings->psi_1e == 0 && settings->psi_2e == 0) {
         rvalue = wps[final_wpsi];
